@@ -122,11 +122,25 @@ pub fn run(ctx: &mut Ctx, _name: &str) {
             }
         }
     }
-    // random histories up to 8 operations
+    // long runs: ids cross 9 -> 10 -> 11 (listing order is numeric, not lexicographic), with a crash
+    // at every point of the 9th..11th save
+    for keep in 1..=3usize {
+        for at in 8..=10u64 {
+            for k in [0u64, 1, 2, 3, 4, 6] {
+                let mut ops: Vec<(u8, u64, u64)> = (0..at).map(|i| (0u8, 100 + i, 0u64)).collect();
+                ops.push((1, 500, k));
+                ops.push((0, 600, 0));
+                ops.push((2, 0, 0));
+                ops.push((0, 601, 0));
+                scenario(ctx, keep, &ops);
+            }
+        }
+    }
+    // random histories up to 8 operations (a tenth of them up to 16)
     let n = if ctx.thorough { 4000 } else { 300 };
     for _ in 0..n {
         let keep = 1 + ctx.rng.below(3) as usize;
-        let len = 1 + ctx.rng.below(8);
+        let len = if ctx.rng.chance(1, 10) { 9 + ctx.rng.below(8) } else { 1 + ctx.rng.below(8) };
         let mut ops = Vec::new();
         for _ in 0..len {
             let r = ctx.rng.below(100);
